@@ -281,6 +281,8 @@ class StmtMixin:
             env.dead = True
             return
         items = self._iter_items(it)
+        if items is None and not self.quiet:
+            items = self.slice_items(it, env, s.iter)     # for octet in buf[a:a+n]: the n octets (each a read)
         if items is not None:
             frame = {"breaks": [], "kind": "for"}
             self.loop_stack.append(frame)
